@@ -1325,7 +1325,7 @@ class DefaultCapabilities(SpaceSeparatedListOfCapabilities):
     # it's still an improvement, raising the bar for potential crackers.
     def setValue(self, v, allowDefaultOwner=conf.allowDefaultOwner):
         registry.SpaceSeparatedListOfStrings.setValue(self, v)
-        if '-owner' not in self.value and not allowDefaultOwner:
+        if '-owner' not in set(self.value) and not allowDefaultOwner:
             print('*** You must run supybot with the --allow-default-owner')
             print('*** option in order to allow a default capability of owner.')
             print('*** Don\'t do that, it\'s dumb.')
